@@ -5,6 +5,7 @@ package server
 // C02 — no request fails while a service is redeployed (schedule-controlled).
 
 import (
+	"crypto/tls"
 	"encoding/json"
 	"fmt"
 	"strings"
@@ -24,6 +25,8 @@ type c02Plan struct {
 	Avoid bool  `json:"avoid"`  // steer around the shapes of the listed known findings
 	Probe bool  `json:"probe"`  // also park probe goroutines between state change and rotation update
 	DeployMs int `json:"deploy_ms"` // deploy timeout of the redeploys (the drain timeout stays far above every service time)
+	TLSRoot  bool  `json:"tls_root"` // the service sits on a sub-path of a host whose root service has TLS; requests come over TLS
+	Offer    []int `json:"offer"`    // requests (by index) that offer a protocol upgrade the target ignores
 }
 
 func c02Gen(t *rapid.T) c02Plan {
@@ -48,6 +51,12 @@ func c02Gen(t *rapid.T) c02Plan {
 	p.Avoid = rapid.IntRange(0, 6).Draw(t, "avoid") > 0
 	p.Probe = rapid.Bool().Draw(t, "probe")
 	p.DeployMs = rapid.SampledFrom([]int{50, 300, 5000}).Draw(t, "deploy-timeout")
+	p.TLSRoot = rapid.IntRange(0, 3).Draw(t, "tls-root") == 0
+	for i := 0; i < nr; i++ {
+		if rapid.IntRange(0, 4).Draw(t, "offer") == 0 {
+			p.Offer = append(p.Offer, i)
+		}
+	}
 	return p
 }
 
@@ -59,6 +68,19 @@ func c02Run(t *testing.T, p c02Plan) (res vfResult) {
 	vfBubble(t, func(w *vfWorld) {
 		r := w.newRouter("r")
 		opts := ServiceOptions{Hosts: []string{"svc.test"}, TLSRedirect: true}
+		path := "/x"
+		if p.TLSRoot {
+			vfFixtures()
+			w.target("root0:80")
+			ro := ServiceOptions{Hosts: []string{"svc.test"}, TLSEnabled: true, TLSCertificatePath: vfFix.cert, TLSPrivateKeyPath: vfFix.key, TLSRedirect: true}
+			ro.Normalize()
+			if err := r.DeployService("root", []string{"root0:80"}, ro, vfFastTargetOptions(), 5*time.Second, time.Second); err != nil {
+				res.failf("setup-failed", "root deploy: %v", err)
+				return
+			}
+			opts.PathPrefixes = []string{"/api"}
+			path = "/api/x"
+		}
 		opts.Normalize()
 		to := vfFastTargetOptions()
 		to.HealthCheckConfig.Interval = 100 * time.Millisecond // probes complete while drains are in progress
@@ -106,7 +128,16 @@ func c02Run(t *testing.T, p c02Plan) (res vfResult) {
 		}
 		startReq := func(i int) {
 			sc.spawn(reqActor(i), func() {
-				req := vfNewRequest("GET", "svc.test", "/x", &vfCtl{ID: reqActor(i), DurMs: p.Durs[i]}, nil)
+				req := vfNewRequest("GET", "svc.test", path, &vfCtl{ID: reqActor(i), DurMs: p.Durs[i]}, nil)
+				if p.TLSRoot {
+					req.TLS = &tls.ConnectionState{}
+				}
+				for _, k := range p.Offer {
+					if k == i { // an upgrade the target does not take up: an ordinary request for all purposes
+						req.Header.Set("Connection", "Upgrade")
+						req.Header.Set("Upgrade", "h2c")
+					}
+				}
 				outs[i] = w.do(r, req)
 			})
 		}
